@@ -13,6 +13,8 @@ loop or the two passes: the meaning of the events is defined declaratively below
      front of that offset was generated (bytes generated under no line are skipped)
  J3  the tables of a program do not change when it is loaded again from its saved binary
  J4  no crash
+ J6  every absolute line 1 … total of every compiled program translates to its source position (segment boundaries
+     included, whether or not code was generated under the line)
  J5  an opened file never gets a file id that a file_info segment written before already uses
 -/
 import NV.C18.Model
@@ -58,6 +60,7 @@ inductive Obs where
   | ev (prog : String) (evs : List CEv)
   | tab (prog : String) (raw : String)
   | dec (prog : String) (runs : List (Nat × String))
+  | tra (prog : String) (runs : List (Nat × Option (Nat × Int)))
   | crash (text : String)
   | loadFail
   | other
@@ -160,6 +163,30 @@ def judgeDec (prog : String) (evs : List CEv) (runs : List (Nat × String)) : Li
       else [s!"dec-mismatch prog={prog} off={off}{if ini then " (initialiser)" else ""} expected={e} got={g}"]
   go 1 exp got
 
+/-- the answers for absolute lines 0, 1, 2 … from the compressed form `<count>*<file>:<first line>` / `<count>*-` -/
+def expandTra (rs : List (Nat × Option (Nat × Int))) : List (Option (Nat × Int)) :=
+  rs.flatMap fun (n, x) =>
+    match x with
+    | none => List.replicate n none
+    | some (f, l) => (List.range n).map fun (i : Nat) => some (f, l + (i : Int))
+
+/-- J6 for one program: EVERY absolute line 1 … total (whether code was generated under it or not, segment
+    boundaries included) translates to its source position; first mismatch only.  Not judged when a segment count
+    does not fit 16 bit (that is finding C18-F3). -/
+def judgeTra (prog : String) (evs : List CEv) (runs : List (Nat × Option (Nat × Int))) : List String :=
+  let segs := segsOf evs
+  if segs.any (fun sg => sg.1 ≥ lineMod ∨ sg.2 ≥ lineMod) then [] else
+  let pos := positions segs
+  let got := (expandTra runs).drop 1
+  let rec go (a : Nat) (ps : List (Nat × Nat)) (gs : List (Option (Nat × Int))) : List String :=
+    match ps, gs with
+    | [], _ => []
+    | _ :: _, [] => [s!"tra-short prog={prog} abs={a}"]
+    | (f, l) :: ps', g :: gs' =>
+      if g == some (f, (l : Int)) then go (a + 1) ps' gs'
+      else [s!"tra-mismatch prog={prog} abs={a} expected={f}:{l} got={match g with | some (gf, gl) => s!"{gf}:{gl}" | none => "-"}"]
+  go 1 pos got
+
 /-! ## J1 -/
 
 def isPseudo (t : TraceEnt) : Bool := t.fn == "CATCH" || t.prog == "<function>"
@@ -213,6 +240,10 @@ def judgeObs : List Obs → List (String × List CEv) → List (String × String
   | .dec p runs :: rest, known, tabs =>
     (match known.find? (fun e => e.1 == p) with
      | some e => judgeDec p e.2 runs
+     | none => []) ++ judgeObs rest known tabs
+  | .tra p runs :: rest, known, tabs =>
+    (match known.find? (fun e => e.1 == p) with
+     | some e => judgeTra p e.2 runs
      | none => []) ++ judgeObs rest known tabs
   | .tab p raw :: rest, known, tabs =>
     (match tabs.find? (fun e => e.1 == p) with
